@@ -394,7 +394,7 @@ function pl_inc(&$x) { $x++; }
 function pl_arr(&$x) { $x[] = 'A'; }
 `
 
-func fullPrelude() string { return "<?php\n" + classPrelude + xPrelude() + plPrelude }
+func fullPrelude() string { return "<?php\n" + classPrelude + xPrelude() + plPrelude + rsPrelude + hPrelude }
 
 // ------------------------------------------------------------ cases
 
@@ -441,6 +441,13 @@ func (r *runner) plProbe() map[string]bool {
 		r.c.Note("scalar payloads: built-ins the interpreter does not have (forms / routes using them left out): %s", strings.Join(missing, " "))
 	}
 	return have
+}
+
+func (r *runner) plProbeOnce() map[string]bool {
+	if r.have == nil {
+		r.have = r.plProbe()
+	}
+	return r.have
 }
 
 func sortStrings(s []string) {
@@ -649,7 +656,7 @@ func (r *runner) runPL(cs *Case) {
 //           (kind × route × mutation × side) on lists; every (kind × shape × mutation × side) along
 //           assignment, by-value parameter, clone and the twice-evaluated literal; a larger sample of the rest.
 func (r *runner) plEnumerate(full bool, rnd *vh.Rand, sample int) int {
-	have := r.plProbe()
+	have := r.plProbeOnce()
 	n := 0
 	// the effect check (the written name holds what the same statement gives on a plain variable) is the
 	// harness validating its own routes; it is applied as a verdict on the core enumeration only — the part
